@@ -170,6 +170,17 @@ def check_shape(kind, a, b, o):
         if abs(e.signed_area - g) > 10 * L: fails.append(f'{kind}({a},{b}) signed_area {e.signed_area!r} vs exact {g!r} (tol {10 * L:.5g})')
         if abs(abs(g) - math.pi * a * b) > 0.01 * math.pi * a * b: fails.append(f'{kind} exact area {g!r} is not pi*a*b')
         if e.direction != math.copysign(1, g) and abs(g) > 10 * L: fails.append(f'{kind} direction {e.direction} but exact area {g}')
+    # rigid motions and scaling applied to the constructor's own objects (no clone): the constructors share Point objects between neighbours
+    def mk(): return Rectangle(a, b, origin=o) if kind == 'rect' else (Ellipse(a, b, origin=o) if kind == 'ellipse' else Circle(a, origin=o))
+    base = mk(); sa = base.signed_area; L0 = base.length
+    tol = 2 * 10 * L0 + 1e-9
+    for name, f, want in (('rotate', lambda q: q.rotate(P(37.0, -11.0), 1.0471975511965976), sa), ('translate', lambda q: q.translate(P(123.5, -77.25)), sa), ('scale', lambda q: q.scale(2.0), 4 * sa)):
+        q = mk(); f(q)
+        got = q.signed_area
+        g2 = ref.green_area([pts(s) for s in q.asSegments()])
+        t2 = tol * (4 if name == 'scale' else 1)
+        if abs(got - want) > t2: fails.append(f'{kind}({a},{b}): signed_area after {name} is {got!r}, expected {want!r} (tol {t2:.5g})')
+        elif abs(g2 - want) > t2: fails.append(f'{kind}({a},{b}): exact enclosed area after {name} is {g2!r}, expected {want!r}: the shape was distorted')
     return fails
 
 
